@@ -909,13 +909,26 @@ func ruleUnionCopy(c *Ctx, r *Report) {
 		// the arm guarded by the Binary type name.
 		good, found := false, false
 		ast.Inspect(f.Decl.Body, func(x ast.Node) bool {
-			cc, ok := x.(*ast.CaseClause)
-			if !ok {
+			// the arm is a case clause or an if body entered under a condition that mentions the
+			// Binary type name, directly or through a named boolean (facts are expanded).
+			var cc ast.Node
+			var first ast.Stmt
+			switch a := x.(type) {
+			case *ast.CaseClause:
+				if len(a.Body) > 0 {
+					cc, first = a, a.Body[0]
+				}
+			case *ast.IfStmt:
+				if len(a.Body.List) > 0 {
+					cc, first = a.Body, a.Body.List[0]
+				}
+			}
+			if cc == nil {
 				return true
 			}
 			isBin := false
-			for _, e := range cc.List {
-				if strings.Contains(types.ExprString(e), "BinaryTypeName") {
+			for _, ft := range c.FactsAt(f, first, false) {
+				if ft.Kind == "cond" && ft.Pos && strings.Contains(types.ExprString(ft.Cond), "BinaryTypeName") {
 					isBin = true
 				}
 			}
